@@ -316,8 +316,42 @@ pub fn main(args: &[String]) {
                     });
                 }
             });
+            // contention: 16 threads hammering tiny inputs whose characters are classified
+            // differently (name start or not, blank or not, ASCII or not), each thread starting
+            // at a different one: a shared cache or table behind the classification helpers shows
+            // up as a wrong token within a few thousand rounds (sampling, labelled as such)
+            let cont: Vec<String> = [
+                "\u{e9} = 1;", "a \u{ac}= b;", "\u{ac}\u{e9}", "%\u{e9}(1)", "$\u{e9}.", "\u{a0}x", "x\u{3000}", "\u{436};", "'\u{e9}'n", "0ffx",
+                "1e5", "%let a=\u{e9};", "&\u{e9}.", "\u{b7}", "\u{663}", "_\u{e9}", "%eval(\u{e9} eq 1)", "%put \u{ac};", "a\u{301}", "\u{200b}",
+            ]
+            .iter()
+            .map(|s| (*s).to_string())
+            .collect();
+            let cont_refs: Vec<u64> = cont.iter().map(|c| input_digest(c, strip, &mut scratch)).collect();
+            let cont_runs = AtomicU64::new(0);
+            std::thread::scope(|sc| {
+                for t in 0..threads {
+                    let (cont, cont_refs, conc_bad, cont_runs) = (&cont, &cont_refs, &conc_bad, &cont_runs);
+                    sc.spawn(move || {
+                        let mut scratch = Vec::new();
+                        let n = cont.len();
+                        for round in 0..4000usize {
+                            let j = (round + t * 5) % n;
+                            let d = input_digest(&cont[j], strip, &mut scratch);
+                            cont_runs.fetch_add(1, Ordering::Relaxed);
+                            if d != cont_refs[j] {
+                                let mut b = conc_bad.lock().unwrap();
+                                if b.len() < 5 {
+                                    b.push(cont[j].clone());
+                                }
+                            }
+                        }
+                    });
+                }
+            });
             let doc = serde_json::json!({
                 "inputs": inputs.len(),
+                "contention_lexer_runs": cont_runs.load(Ordering::Relaxed),
                 "ordered_pairs": pairs,
                 "pair_mismatches": bad,
                 "free_running_threads": threads,
